@@ -9,7 +9,7 @@ from eqsig import displacements as disp_mod
 from eqsig import im
 
 from pbt import core, gen
-from pbt.core import clause
+from pbt.core import clause, enum_clause
 
 PROPERTY = "C08"
 CLAUSES = []
@@ -259,3 +259,40 @@ def consequences(case, ctx):
             ctx.check(abs(s1.pga - abs(al) * s0.pga) <= 4 * EPS * abs(al) * s0.pga, "pga does not scale with |alpha|")
             ctx.check(abs(s1.pgv - abs(al) * s0.pgv) <= abs(al) * 4 * EPS * (n + 4) * dt * np.sum(np.abs(a)),
                       "pgv does not scale with |alpha|: %r vs %r" % (s1.pgv, abs(al) * s0.pgv))
+
+
+# ---------------------------------------------------------------------------
+# very long records (continuous monitoring): lengths around 2^20 and 2^21
+
+
+def _giant_enum(tier, shard, nshards):
+    ns = [2 ** 20 + 2, 2 ** 20 + 6000] if tier == "quick" else [2 ** 20 - 1, 2 ** 20 + 2, 2 ** 20 + 6000, 2 ** 21 + 5, 3 * 2 ** 20 + 17]
+    for i, n in enumerate(ns):
+        if i % nshards == shard:
+            yield {"n": n, "dt": 0.005, "seed": 11 + i}
+
+
+@enum_clause(CLAUSES, "giant-records", _giant_enum,
+             rule="fixed very long records (about 1-3 million samples) at object and array level",
+             oracle="reference model: long-double cumulative trapezoid (bound eps*(k+4)*running sum|increments|); object level == array level "
+                    "(exact); peaks == max|.|",
+             exhaustive_note="the listed lengths", quick_shards=2)
+def giant_records(case, ctx):
+    n, dt = case["n"], case["dt"]
+    a = np.random.RandomState(case["seed"]).standard_normal(n) * np.hanning(n) + 0.01
+    ctx.nt(True)
+    asig = ctx.lib(eqsig.AccSignal, a, dt)
+    v = np.asarray(ctx.lib(lambda: asig.velocity))
+    d = np.asarray(ctx.lib(lambda: asig.displacement))
+    v2, d2 = ctx.lib(disp_mod.calc_velo_and_disp_from_accel_arr, a, dt, trap=True)
+    ctx.equal(v, v2, "AccSignal.velocity vs array level (n=%d)" % n)
+    ctx.equal(d, d2, "AccSignal.displacement vs array level (n=%d)" % n)
+    al = a.astype(LD)
+    inc_v = LD(dt) * (al[1:] + al[:-1]) / 2
+    vref = np.concatenate([[LD(0)], np.cumsum(inc_v)])
+    ctx.close(v, vref, np.concatenate([[0.0], _run_bound(np.asarray(inc_v, dtype=float))]), "velocity vs long-double running sum (n=%d)" % n)
+    vl = v.astype(LD)
+    inc_d = LD(dt) * (vl[1:] + vl[:-1]) / 2
+    dref = np.concatenate([[LD(0)], np.cumsum(inc_d)])
+    ctx.close(d, dref, np.concatenate([[0.0], _run_bound(np.asarray(inc_d, dtype=float))]), "displacement vs long-double running sum (n=%d)" % n)
+    ctx.check(asig.pga == np.max(np.abs(a)) and asig.pgv == np.max(np.abs(v)) and asig.pgd == np.max(np.abs(d)), "peaks of a giant record")
